@@ -51,6 +51,8 @@ def configs(tier, seed, salt=0):
             c["enum_features"] = True
         if k % 4 == 2:
             c["refused_before"] = sorted({0, c["n"]} if k % 8 == 2 else {c["n"] // 2})
+        if k % 5 == 3 and c["n"] >= 2:
+            c["elab_before"] = [c["n"] - 1] if k % 2 else [1, c["n"] - 1]
     return cfgs
 
 
@@ -89,6 +91,9 @@ def build(cfg, upto=None):
         for i in range(cfg["n"] if upto is None else upto):
             if i in cfg.get("refused_before", ()):
                 refused_add(arb, i)
+            if i in cfg.get("elab_before", ()):
+                from amaranth.hdl import Fragment
+                Fragment.get(arb, None)          # elaborated once with the initiators added so far; more are added afterwards
             add(arb, i)
         if cfg["n"] in cfg.get("refused_before", ()) and upto is None:
             refused_add(arb, cfg["n"])
